@@ -207,6 +207,35 @@ def checkC05 (toks : List String) (res : String) : Option Verdict :=
         some (okv && withinDigits d sg v)
       | none => some false
     some { model := showRes showESNum (ElasticScaled.binOp op x y), spec := spec, branch := "sbin/" ++ toks[1]!, nontrivial := guard }
+  | ["sconst", op, side, dl, nl, el, c, l] => do
+    -- elastic_scaled_integer `op` cnl::constant<c> (side `r`: constant on the right, `l`: on the left)
+    let op ← parseBinOp op; let dl ← dl.toNat?; let nl ← parseIntTy nl; let el ← el.toInt?
+    let c ← c.toInt?; let l ← l.toInt?
+    let cl := side == "l"
+    let x : ElasticScaled.ESNum := ⟨dl, nl, el, l⟩
+    -- the exact value of the constant as significand * 2^tz (2-adic valuation)
+    let tz := ElasticScaled.trailingBits 200 c.natAbs
+    let s : Int := c / 2^tz
+    let divisor : Int := if cl then l else s
+    -- `+ -` scale the constant's built-in representation in its own type when its exponent is the larger one: built-in
+    -- arithmetic, not constrained by this property when it overflows
+    let m := ElasticScaled.constBin op cl x c
+    let builtinOvf : Bool := match m with | .ub _ => (op == .add || op == .sub) && (tz : Int) > el | _ => false
+    let guard := decide x.InRange && !((op == .div || op == .mod) && divisor == 0) && !builtinOvf
+    let spec : Option Bool := if !guard then none else
+      match parseEsRes res with
+      | some (d, sg, e, v) =>
+        let lhs : Rat := (v : Rat) * pow2Q e
+        let a : Rat := (l : Rat) * pow2Q el; let b : Rat := (c : Rat)
+        let okv : Bool := match op with
+          | .add => lhs == a + b
+          | .sub => lhs == (if cl then b - a else a - b)
+          | .mul => lhs == a * b
+          | .div => if cl then v == s.tdiv l && e == (tz : Int) - el else v == l.tdiv s && e == el - (tz : Int)
+          | _ => false
+        some (okv && withinDigits d sg v)
+      | none => some false
+    some { model := showRes showESNum m, spec := spec, branch := "sconst/" ++ toks[1]! ++ "/" ++ side, nontrivial := guard }
   | ["scmp", op, dl, nl, el, dr, nr, er, l, r] => do
     let op ← parseCmpOp op; let dl ← dl.toNat?; let nl ← parseIntTy nl; let el ← el.toInt?
     let dr ← dr.toNat?; let nr ← parseIntTy nr; let er ← er.toInt?; let l ← l.toInt?; let r ← r.toInt?
